@@ -121,6 +121,7 @@ Definition expected : table :=
           [ Run "Uninstall.Run" ["DisableHooks"];
             If CErr
               [ ReturnErr ] [];
+            Pure;
             Return ] [];
         Fn "Install.recordRelease" "";
         Return ]);
@@ -178,7 +179,8 @@ Definition expected : table :=
         Fn "Storage.Last" "";
         If CErr
           [ If CData
-              [ Return ] [];
+              [ Pure;
+                Return ] [];
             ReturnErr ] [];
         If CData
           [ Return ] [];
@@ -292,16 +294,19 @@ Definition expected : table :=
         If (CAnd (CFlag "CleanupOnFail") CData)
           [ Call KcDelete;
             If CErr
-              [ Return ] [] ] [];
+              [ Pure;
+                Return ] [] ] [];
         If (CFlag "Atomic")
           [ Run "History.Run" [];
             If CErr
               [ ReturnErr ] [];
             If CData
-              [ Return ] [];
+              [ Pure;
+                Return ] [];
             Run "Rollback.Run" ["DisableHooks"; "Recreate"; "WaitForJobs"];
             If CErr
               [ ReturnErr ] [];
+            Pure;
             Return ] [];
         Return ]);
     ("Rollback.Run",
@@ -366,7 +371,8 @@ Definition expected : table :=
             If (CFlag "CleanupOnFail")
               [ Call KcDelete;
                 If CErr
-                  [ Return ] [] ] [];
+                  [ Pure;
+                    Return ] [] ] [];
             ReturnErr ] [];
         If (CFlag "Recreate")
           [ Call (Other "recreate") ] [];
@@ -493,7 +499,7 @@ Definition expected : table :=
                 Fn "Configuration.deleteHooksByPolicy" "";
                 If CErr
                   [ ReturnErr ] [];
-                Return ] [] ];
+                ReturnErr ] [] ];
         Loop
           [ Fn "Configuration.outputLogsByPolicy" "";
             Fn "Configuration.deleteHookByPolicy" "";
@@ -576,14 +582,16 @@ Definition expected : table :=
         If CErr
           [ ReturnErr ] [];
         If CData
-          [ Return ] [];
+          [ Pure;
+            Return ] [];
         ReturnOk ]);
     ("Storage.DeployedAll",
       [ Call DDeployed;
         If (CNot CErr)
           [ ReturnOk ] [];
         If CData
-          [ Return ] [];
+          [ Pure;
+            Return ] [];
         Return ]);
     ("Storage.History",
       [ Call DHistory;
